@@ -72,7 +72,7 @@ func c12Gen(rng *rand.Rand, depth int, ctr *int) *enode {
 			return &enode{kind: "nil"}
 		}
 	}
-	kinds := []string{"join", "join", "join", "wrap", "fmtw", "stdjoin", "panic", "stack", "panic-string"}
+	kinds := []string{"join", "join", "join", "wrap", "fmtw", "stdjoin", "panic", "stack", "panic-string", "unwrap"}
 	k := kinds[rng.IntN(len(kinds))]
 	n := &enode{kind: k}
 	nk := 1
@@ -118,6 +118,60 @@ func (n *enode) eval() eresult {
 		}
 	}
 	switch n.kind {
+	case "unwrap":
+		// errors.Unwrap of an aggregate is the aggregate without its most
+		// recent constituent: an interior stack node, itself a valid error
+		r := kids[0]
+		st, isStack := r.err.(*ers.Stack)
+		if !isStack || len(r.flat) < 2 {
+			return r
+		}
+		head := st.Unwind()[0]
+		if strings.HasPrefix(errKey(head), "wrap:") {
+			return r // the inner leaves of a %w wrapper are not tracked separately
+		}
+		hk := errKey(head)
+		if _, isConst := head.(ers.Error); !isConst {
+			for _, f := range r.flat {
+				if a, ok := f.(annotationMarker); ok && string(a) == head.Error() {
+					hk = errKey(a)
+				}
+			}
+		}
+		dropped := false
+		out.plain = r.plain
+		for _, f := range r.flat {
+			if !dropped && errKey(f) == hk {
+				dropped = true
+				continue
+			}
+			out.flat = append(out.flat, f)
+		}
+		if !dropped {
+			return r
+		}
+		stillThere := func(l error) bool {
+			for _, f := range out.flat {
+				if errKey(f) == errKey(l) {
+					return true
+				}
+			}
+			return errKey(l) != hk
+		}
+		out.leaves, out.typed = nil, nil
+		for _, l := range r.leaves {
+			if stillThere(l) {
+				out.leaves = append(out.leaves, l)
+			}
+		}
+		for _, t := range r.typed {
+			if stillThere(t) {
+				out.typed = append(out.typed, t)
+			}
+		}
+		out.err = errors.Unwrap(st)
+		out.desc = "Unwrap(" + r.desc + ")"
+		return out
 	case "join":
 		out.err = ers.Join(kerrs...)
 		concat()
@@ -274,7 +328,8 @@ func runC12(r *kit.Run) {
 			continue
 		}
 		// Join of a single plain error returns it
-		if len(res.flat) == 1 && res.plain {
+		_, onlyAnnotation := firstOr(res.flat).(annotationMarker)
+		if len(res.flat) == 1 && res.plain && !onlyAnnotation {
 			same, cmpPanic := false, false
 			func() {
 				defer func() {
@@ -555,4 +610,11 @@ func c12Collector(r *kit.Run, idx int64, rng *rand.Rand) {
 		r.Distinct(fmt.Sprintf("collector|g=%d|per=%s|p=%d", G, lenClass(per), procs))
 	}
 	r.Count("collector_runs", 1)
+}
+
+func firstOr(errs []error) error {
+	if len(errs) == 0 {
+		return nil
+	}
+	return errs[0]
 }
